@@ -85,6 +85,9 @@ def run(ctx):
     for ln in lines[:: max(1, len(lines) // 3)][:3]:
         ctx.sample({k: v for k, v in ln.items() if k != "oid"})
     bad = ctx.tlc_validate("Trace_C19", "Trace.cfg", [{k: v for k, v in ln.items() if k != "note"} for ln in lines])
+    ctx.selftest("Trace_C19", "Trace.cfg", [{k: v for k, v in ln.items() if k not in ('note',)} for ln in lines if ln["oid"] not in bad and (True)], [
+        ("errs", lambda l: dict(l, errs=[[e[0], 2 * 10 ** 8] for e in l["errs"]])),
+        ("finite", lambda l: dict(l, finite=False))])
     by = {ln["oid"]: ln for ln in lines}
     for oid, clause in bad.items():
         ln = by[oid]
